@@ -77,6 +77,7 @@ type AsyncInfo struct {
 	MarkAfter   bool        `json:"mark_after"` // the measurement still carries the deleting mark after the drop returned
 	Extra       []tsdrv.Row `json:"extra,omitempty"`
 	ExtraAcked  bool        `json:"extra_acked"`
+	Closed      bool        `json:"closed"` // the shard was closed (clean shutdown) while the replay was held; no live read
 	Live        string      `json:"live"` // oracle verdict on the dump of the live shard after the replay finished
 	LiveDiff    []Cell      `json:"live_diff,omitempty"`
 }
@@ -1208,6 +1209,7 @@ func (rn *runner) runHistory(idx int, sp spec, r *gen.Rand) *History {
 	extraVal := int64(900000)
 	var subNo []int
 	var liveOps []int // write ops with a record in the live log of the image being recovered
+	pi := 0
 	check := func(im *Image, d string, record, async bool, nfiles int) (subs []string) {
 		defer func() {
 			if e := recover(); e != nil {
@@ -1269,6 +1271,32 @@ func (rn *runner) runHistory(idx int, sp spec, r *gen.Rand) *History {
 					extraVal++
 					ai.ExtraAcked = writeRows(s2, nmst, ai.Extra) == nil
 				}
+			}
+			if nfiles > 0 && ai.Replaying && (r.Chance(1, 4) || (dense && pi%3 == 1)) {
+				// clean shutdown while the log is still being re-applied: Close cancels the replay and waits for it
+				ai.Closed = true
+				cdone := make(chan struct{})
+				go func() { _ = s2.VerifCloseShardFirst(); close(cdone) }()
+				time.Sleep(150 * time.Millisecond)
+				released = true
+				release()
+				tick("closing the shard during its asynchronous replay")
+				<-cdone
+				ai.Live = "closed"
+				s3, err := openShard(dir, false)
+				if err != nil {
+					im.Err = "open after the shutdown during the replay failed: " + err.Error()
+					return
+				}
+				got, err := dumpAll(s3, nser, nmst)
+				_ = s3.Close()
+				if err != nil {
+					im.Err = "dump after the shutdown during the replay failed: " + err.Error()
+					return
+				}
+				im.Dump = cells(got)
+				im.Match, im.Diff = judge(im, got, ai)
+				return
 			}
 			released = true
 			release()
@@ -1343,7 +1371,8 @@ func (rn *runner) runHistory(idx int, sp spec, r *gen.Rand) *History {
 		h.Images = append(h.Images, im)
 		rn.hmu.Unlock()
 	}
-	for pi, p := range pend {
+	for pix, p := range pend {
+		pi = pix
 		im := p.img
 		tick(fmt.Sprintf("recovering image %d/%d (%s)", pi+1, len(pend), im.At))
 		parts, epochs, nfiles := partsOf(p.dir, nwal, p.wal, p.walEpoch)
